@@ -409,8 +409,7 @@ class C06(HeapCheck):
     def finding_key(self, case, obs, failure):
         if "provoke" in case and failure.endswith(" [RuntimeError while the resolved link was assigned once more]"):
             return "relink-after-merge"
-        if "provoke" in case and failure.endswith(" [assignment of a resolvable link refused by the merge check]"):
-            return "link-refused-by-merge-keeps-link"
+        # link-refused-by-merge-keeps-link was repaired by 06cfd75: a regression is a VIOLATION
         return None
 
     def tag(self, case, obs):
